@@ -159,6 +159,9 @@ def env_vars(seed):
 def env_valid(tool, env):
     if env.inplace and not (tool == "veftopng" and env.in_kind == "path" and env.out_kind == "path"):
         return False
+    if env.in_kind in ("redir", "redir_off"):
+        # stdin redirected from a regular file (`tool - < file`), at offset 0 or already advanced
+        return tool in STDIN_OK and (env.out_kind == "path" or tool in STDOUT_OK)
     if env.in_kind == "fifo":
         # a named pipe given as the input file: fine for every tool that does not ask for the
         # file's size (pixtopgm does)
@@ -181,7 +184,7 @@ def build_argv(opts, env, tool=None):
     pos = []
     if env.in_kind in ("path", "fifo"):
         pos.append(inp)
-    elif env.in_kind == "dash":
+    elif env.in_kind in ("dash", "redir", "redir_off"):
         pos.append("-")
     if env.out_kind == "path":
         pos.append(outp)
@@ -214,7 +217,12 @@ def simulate(tool, opts, data: bytes, env: Env, damaged=(), boundaries=(), budge
     sin = ChunkSchedule(env.in_chunk, env.in_seed, boundaries)
     sout = ChunkSchedule(env.out_chunk, env.out_seed)
     use_stdin = env.in_kind not in ("path", "fifo")
-    w = World(stdin_data=data if use_stdin else None, stdin_sched=sin, stdout_sched=sout,
+    redirect = None
+    if env.in_kind in ("redir", "redir_off"):
+        import random as _r0
+        k = 0 if env.in_kind == "redir" else 1 + env.in_seed % 97
+        redirect = (_r0.Random(env.in_seed).randbytes(k) + bytes(data), k)
+    w = World(stdin_data=data if use_stdin else None, stdin_file=redirect, stdin_sched=sin, stdout_sched=sout,
               stdin_damaged=damaged if use_stdin else (), vcwd=VCWD_OF_PROCESS,
               stdout_unbuffered=env.unbuf, environ=env_vars(env.envseed))
     with w:
@@ -242,7 +250,7 @@ def simulate(tool, opts, data: bytes, env: Env, damaged=(), boundaries=(), budge
     r.dmg_site = rd.dmg_site if rd else None
     r.consumed = rd.consumed_damage() if rd else False
     r.app_reads = rd.app_reads if rd else 0
-    r.raw_reads = w.stdin_raw.raw_reads
+    r.raw_reads = getattr(w.stdin_raw, "raw_reads", 0)
     r.raw_writes = w.stdout_raw.raw_writes
     r.events = w.log.n
     r.event_digest = w.log.hexdigest()
